@@ -48,6 +48,32 @@ pub fn write_to_dests<K: Kind>(shapes: &[K], with_shx: bool, fin: Finish) -> Res
     Ok((shp, shx))
 }
 
+/// As `write_to_dests`, with `finalize()` also called after shape i whenever bit i (mod 32) of
+/// `mid_fins` is set (ignored for the consuming `write_shapes` route).
+pub fn write_bytes_fins<K: Kind>(shapes: &[K], with_shx: bool, fin: Finish, mid_fins: u32) -> Result<(Vec<u8>, Option<Vec<u8>>), String> {
+    if mid_fins == 0 || fin == Finish::WriteShapes {
+        return write_bytes(shapes, with_shx, fin);
+    }
+    let shp = Dest::new();
+    let shx = if with_shx { Some(Dest::new()) } else { None };
+    {
+        let mut w = match &shx {
+            Some(x) => ShapeWriter::with_shx(shp.clone(), x.clone()),
+            None => ShapeWriter::new(shp.clone()),
+        };
+        for (i, s) in shapes.iter().enumerate() {
+            w.write_shape(s).map_err(|e| format!("write_shape #{}: {}", i, err_str(&e)))?;
+            if mid_fins & (1 << (i % 32)) != 0 {
+                w.finalize().map_err(|e| format!("finalize after #{}: {}", i, err_str(&e)))?;
+            }
+        }
+        if fin == Finish::FinalizeDrop {
+            w.finalize().map_err(|e| format!("finalize: {}", err_str(&e)))?;
+        }
+    }
+    Ok((shp.bytes(), shx.map(|x| x.bytes())))
+}
+
 pub fn write_bytes<K: Kind>(shapes: &[K], with_shx: bool, fin: Finish) -> Result<(Vec<u8>, Option<Vec<u8>>), String> {
     let (a, b) = write_to_dests(shapes, with_shx, fin)?;
     Ok((a.bytes(), b.map(|x| x.bytes())))
